@@ -251,6 +251,89 @@ extern "C" int harness_main() {
   verif_reach("recovered");
   return 0;
 }
+#elif defined(MODE_CYCLE)
+// ------------------------------------------------------------------------------------------------ C17: cycles are diagnosed, and only real ones
+// does the part of the graph needed for f (declared inputs of every kind; discovered ones only once they have been recorded) contain a cycle?
+static bool dfs_cycle(const std::string& f, std::vector<std::string>* stack, std::vector<std::string>* done, bool with_extras, std::vector<std::string>* on_cycle) {
+  for (size_t i = 0; i < done->size(); i++) if ((*done)[i] == f) return false;
+  for (size_t i = 0; i < stack->size(); i++) if ((*stack)[i] == f) { for (size_t k = i; k < stack->size(); k++) on_cycle->push_back((*stack)[k]); return true; }
+  const RefEdge* e = ref_producer(f); if (!e) { done->push_back(f); return false; }
+  stack->push_back(f); bool cyc = false;
+  std::vector<std::string> ins;
+  for (size_t i = 0; i < (with_extras ? e->reads.size() : e->ndeclared); i++) ins.push_back(e->reads[i]);
+  for (size_t i = 0; i < e->order_only.size(); i++) ins.push_back(e->order_only[i]);
+  for (size_t i = 0; i < ins.size() && !cyc; i++) {
+    // entering a statement through any of its outputs: the statement's other outputs are the same vertex
+    const RefEdge* p = ref_producer(ins[i]); std::string rep = p ? p->outs[0] : ins[i];
+    (void)rep; cyc = dfs_cycle(p ? p->outs[0] : ins[i], stack, done, with_extras, on_cycle);
+  }
+  stack->pop_back(); if (!cyc) done->push_back(f);
+  return cyc;
+}
+static bool needs_cycle(const std::vector<std::string>& targets, bool with_extras, std::vector<std::string>* on_cycle) {
+  std::vector<std::string> todo = targets, seen; bool cyc = false;
+  for (size_t t = 0; t < todo.size() && !cyc; t++) {
+    const RefEdge* p = ref_producer(todo[t]); std::vector<std::string> stack, done;
+    cyc = dfs_cycle(p ? p->outs[0] : todo[t], &stack, &done, with_extras, on_cycle);
+    // validations of everything reachable are further roots
+    std::vector<std::string> cl; closure(todo[t], &cl);
+    for (size_t i = 0; i < cl.size(); i++) { const RefEdge* e = ref_producer(cl[i]); if (!e) continue; for (size_t v = 0; v < e->validations.size(); v++) { bool have = false; for (size_t q = 0; q < todo.size(); q++) have = have || todo[q] == e->validations[v]; if (!have) todo.push_back(e->validations[v]); } }
+  }
+  return cyc;
+}
+// "dependency cycle: a -> b -> a": closed, and every hop is an input relation of the graph
+static bool cycle_message_ok(const std::string& err) {
+  size_t p = err.find("dependency cycle: "); if (p == std::string::npos) return false;
+  std::string rest = err.substr(p + 18); std::vector<std::string> hops; size_t pos = 0;
+  for (;;) { size_t a = rest.find(" -> ", pos); if (a == std::string::npos) { hops.push_back(rest.substr(pos)); break; } hops.push_back(rest.substr(pos, a - pos)); pos = a + 4; }
+  if (hops.size() < 2 || hops.front() != hops.back()) return false;
+  for (size_t i = 0; i + 1 < hops.size(); i++) {
+    const RefEdge* e = ref_producer(hops[i]); if (!e) return false; bool is_input = false;
+    for (size_t k = 0; k < e->reads.size(); k++) is_input = is_input || e->reads[k] == hops[i + 1];
+    for (size_t k = 0; k < e->order_only.size(); k++) is_input = is_input || e->order_only[k] == hops[i + 1];
+    if (!is_input) return false;
+  }
+  return true;
+}
+extern "C" int harness_main() {
+  ir2c_global_ctors();
+  const Scenario* sc = &kScenarios[SCENARIO];
+  init_tree(sc);
+  for (int inv = 0; inv < 2; inv++) {
+    InvocationOpts o; o.targets = symbolic_targets(sc, "request_target"); o.run.parallelism = 1 + verif_choice("jobs_minus_1", 2);
+    load_reference();
+    std::vector<std::string> on_cycle;
+    bool declared_cycle = needs_cycle(o.targets, false, &on_cycle);
+    std::vector<std::string> on_cycle2; bool any_cycle = needs_cycle(o.targets, true, &on_cycle2);
+    // has every statement whose discovered inputs close the cycle already run once (so that its depfile / deps record exists)?
+    bool recorded = true;
+    for (size_t i = 0; i < g_ref.size(); i++) if (g_ref[i].reads.size() > g_ref[i].ndeclared) for (size_t k = 0; k < on_cycle2.size(); k++) if (g_ref[i].outs[0] == on_cycle2[k] && !(g_ref[i].ordinal < 16 && g_last[g_ref[i].ordinal].ran)) recorded = false;
+    InvocationResult r = invoke(o);
+    VERIF_ASSERT(r.parsed, "the scenario manifest parses");
+    observe(r);
+    bool says_cycle = r.err.find("dependency cycle") != std::string::npos;
+    if (declared_cycle) {
+      VERIF_ASSERT((!r.added || r.rc != 0) && says_cycle, "C17: a dependency cycle in the part of the graph needed for the requested targets is diagnosed");
+      VERIF_ASSERT(cycle_message_ok(r.err), "C17: the diagnostic spells out an actual, closed cycle");
+      VERIF_ASSERT(r.started.empty(), "C17: no command is run when the needed graph has a cycle at scan time");
+      verif_reach("cycle-diagnosed");
+    } else if (!any_cycle) {
+      VERIF_ASSERT(!says_cycle, "C17: an acyclic graph is never rejected as cyclic");
+      VERIF_ASSERT(r.added && r.rc == 0, "C17: an acyclic graph builds");
+      verif_reach("acyclic-built");
+    } else {
+      // a cycle closed only by discovered dependencies: once they have been recorded (second invocation) it must be diagnosed
+      if (recorded) {
+        if (says_cycle) { VERIF_ASSERT(cycle_message_ok(r.err), "C17: the diagnostic spells out an actual, closed cycle"); verif_reach("discovered-cycle-diagnosed"); }
+        bool ran_on_cycle = false; for (size_t i = 0; i < g_ref.size(); i++) for (size_t k = 0; k < on_cycle2.size(); k++) if (g_ref[i].outs[0] == on_cycle2[k] && has_id(r.started, g_ref[i].ordinal)) ran_on_cycle = true;
+        VERIF_ASSERT(says_cycle || !ran_on_cycle, "C17: once a depfile or the deps log closes a cycle no command on it is run without a diagnostic");
+      }
+    }
+    VERIF_ASSERT(!r.stuck, "C17: ninja never ends with 'stuck' instead of a diagnostic");
+    if (inv == 0 && verif_bool("edit_source_between")) { std::vector<std::string> src = split_words(sc->sources); edit_file(src[0]); }
+  }
+  return 0;
+}
 #elif defined(MODE_DYNDEP_BAD)
 // ------------------------------------------------------------------------------------------------ C11: ill-formed dyndep files make the build fail
 extern "C" int harness_main() {
